@@ -51,6 +51,9 @@ def build_lean(targets=("AseProofs", "asedrv")):
 
 
 def harness_bin(profile):
+    # bin/coverage substitutes a coverage-instrumented build of the same harness
+    if os.environ.get("VERIF_OBSERVE_BIN"):
+        return os.environ["VERIF_OBSERVE_BIN"]
     return os.path.join(HARNESS, "target", profile, "observe")
 
 
